@@ -260,7 +260,14 @@ def judge_c18(case):
             if "exc" not in obs:
                 findings.append(_finding("C18", "strict-did-not-raise", rec, f"strict=True returned status {obs.get('status')} with non-continuous {D}"))
             elif obs["exc"] not in _PRE_SOLVER_EXC:
-                findings.append(_finding("C18", "strict-unexpected-exception", rec, f"{obs['exc']}"))
+                # some other exception: fine when the model cannot be solved whatever the domains are
+                # (its all-continuous twin raises the same class before any solver runs), a finding otherwise
+                twin = refs.get(rec["ref_unsolvable"]) if "ref_unsolvable" in rec else None
+                tobs = (twin or {}).get("obs") or {}
+                if tobs.get("exc") == obs["exc"] and not (twin or {}).get("events"):
+                    reach.probe("strict-on-unsolvable-model")
+                else:
+                    findings.append(_finding("C18", "strict-unexpected-exception", rec, f"{obs['exc']} (all-continuous twin: {tobs.get('exc') or tobs.get('status')})"))
             elif obs["exc"] == "IntegerVariableError" and sorted(obs.get("exc_names") or []) != sorted(D):
                 findings.append(_finding("C18", "strict-names", rec, f"listed {obs.get('exc_names')} expected {D}"))
             if evs or rec.get("seq_delta"):
